@@ -70,6 +70,7 @@ DriveOut drive_reader(const Task &t, const Bytes &archive, const DriveOpts &o) {
 	src->seekerr = t.seekerr;
 	src->skippast = t.skippast;
 	src->endless = t.endless;
+	src->prepos = t.prepos;
 	src->erronce = t.erronce;
 	src->errerrno = t.errerrno;
 	src->task = t_task;
@@ -102,7 +103,10 @@ DriveOut drive_reader(const Task &t, const Bytes &archive, const DriveOpts &o) {
 		fired_before = g_sim.fail_fired;
 		LibScope ls("stream_new");
 		if (o.by_name) {
-			g_sim.archive_src = src;
+			// several readers may open archives by name at the same time: each path has its own source
+			int bino = g_sim.fs ? g_sim.fs->lookup(o.by_name_path, true) : -1;
+			if (bino >= 0 && bino != g_sim.archive_ino) g_sim.by_name_srcs[bino] = src;
+			else g_sim.archive_src = src;
 			st = lha_input_stream_from((char *) o.by_name_path.c_str());
 		} else st = src->open_stream();
 	}
